@@ -3,6 +3,8 @@ package props
 import (
 	"fmt"
 
+	"verif/harness/dom"
+
 	"verif/harness/core"
 	"verif/harness/oracle"
 )
@@ -35,4 +37,25 @@ func GenTables(which string) {
 	}
 }
 
-func genTablesC03() {}
+func genTablesC03() {
+	for _, sys := range c03Systems {
+		if !oracle.Available(sys.String()) {
+			core.Harness("gen-tables: reference tool for %v is not available", sys)
+		}
+		reqs, cands := dom.MatchDomain(sys)
+		t, err := oracle.BuildMatchTable(sys.String(), reqs, cands)
+		if err != nil {
+			core.Harness("gen-tables C03 %v: %v", sys, err)
+		}
+		if err := oracle.Save(c03TableName(sys), t); err != nil {
+			core.Harness("gen-tables: %v", err)
+		}
+		acc := 0
+		for _, v := range t.ReqValid {
+			if v {
+				acc++
+			}
+		}
+		fmt.Printf("C03 %-6v %6d requirements (%d accepted by %s) x %d candidates\n", sys, len(reqs), acc, t.Tool, len(cands))
+	}
+}
